@@ -44,7 +44,17 @@ def resolve(chain, e):
 
 
 def run_async(b0, start, length, chain, script):
-    """Real GeckoAsyncStructure.get on a real GeckoAsyncUdpProtocol under virtual time; script feeds one event at a time."""
+    return run_async_seq(b0, [(start, length, chain, script)])[0]
+
+
+def run_sync(b0, start, length, chain, script):
+    return run_sync_seq(b0, [(start, length, chain, script)])[0]
+
+
+def run_async_seq(b0, items):
+    """Real GeckoAsyncStructure.get on a real GeckoAsyncUdpProtocol under virtual time; script feeds one event at a time.
+    items: successive transfers (start, length, chain, script) on ONE structure / protocol object; a transfer that is still
+    pending when its script ends is cancelled and ends the sequence."""
     from geckolib.driver import GeckoAsyncUdpProtocol, GeckoAsyncStructure, GeckoStatusBlockProtocolHandler
 
     async def main(loop):
@@ -53,7 +63,17 @@ def run_async(b0, start, length, chain, script):
         proto.connection_made(tr)
         st = GeckoAsyncStructure(None, None)
         st.set_status_block(bytes(b0))
+        out = []
+        for (start, length, chain, script) in items:
+            r = await one(loop, proto, tr, st, start, length, chain, script)
+            out.append(r)
+            if r[0] == 0:
+                break
+        return out
+
+    async def one(loop, proto, tr, st, start, length, chain, script):
         seqs = []
+        sent0 = len(tr.sent)
 
         def create():
             s = proto.get_and_increment_sequence_counter(False)
@@ -80,13 +100,14 @@ def run_async(b0, start, length, chain, script):
             task.cancel()
             with contextlib.suppress(BaseException):
                 await task
-        sends = sum(1 for (_, d, _) in tr.sent if b"STATU" in d)
+        sends = sum(1 for (_, d, _) in tr.sent[sent0:] if b"STATU" in d)
         return status, sends, st.status_block
     return vloop.run(main)
 
 
-def run_sync(b0, start, length, chain, script):
-    """Real GeckoStructure.retry_request on a real GeckoUdpSocket (thread never started), stepped as the engine thread does."""
+def run_sync_seq(b0, items):
+    """Real GeckoStructure.retry_request on a real GeckoUdpSocket (thread never started), stepped as the engine thread does.
+    items: successive transfers on ONE structure / socket object; a transfer still pending at the end of its script ends the sequence."""
     from geckolib.driver import GeckoUdpSocket, GeckoStructure, GeckoStatusBlockProtocolHandler
     clock = [1000.0]
     real = time.monotonic
@@ -95,25 +116,32 @@ def run_sync(b0, start, length, chain, script):
         sock = GeckoUdpSocket()
         st = GeckoStructure(None)
         st.set_status_block(bytes(b0))
-        req = GeckoStatusBlockProtocolHandler.request(sock.get_and_increment_sequence_counter(False), start, length, parms=SENDER)
-        st.retry_request(sock, req, SENDER)
-        for e in script:
-            if e[0] == "T":
-                clock[0] += 4.3
-                for h in list(sock._receive_handlers):
-                    h.loop(sock)
-                sock._cleanup_handlers()
+        out = []
+        for (start, length, chain, script) in items:
+            st.had_at_least_one_block = False
+            req = GeckoStatusBlockProtocolHandler.request(sock.get_and_increment_sequence_counter(False), start, length, parms=SENDER)
+            st.retry_request(sock, req, SENDER)
+            for e in script:
+                if e[0] == "T":
+                    clock[0] += 4.3
+                    for h in list(sock._receive_handlers):
+                        h.loop(sock)
+                    sock._cleanup_handlers()
+                else:
+                    clock[0] += 0.02
+                    with vloop.quiet():
+                        sock.dispatch_recevied_data(statv(resolve(chain, e)), SENDER)
+                    sock._cleanup_handlers()
+            sends = sum(1 for (h, d) in sock._send_handlers if h is req)
+            if req in sock._receive_handlers:
+                status = 0
             else:
-                clock[0] += 0.02
-                with vloop.quiet():
-                    sock.dispatch_recevied_data(statv(resolve(chain, e)), SENDER)
-                sock._cleanup_handlers()
-        sends = sum(1 for (h, d) in sock._send_handlers if h is req)
-        if req in sock._receive_handlers:
-            status = 0
-        else:
-            status = 1 if st.had_at_least_one_block else 2
-        return status, sends, st.status_block
+                status = 1 if st.had_at_least_one_block else 2
+            out.append((status, sends, st.status_block))
+            if status == 0:
+                break
+            sock._send_handlers = []
+        return out
     finally:
         time.monotonic = real
 
@@ -160,6 +188,10 @@ def gen_script(rng, n, kind):
         return [base[-1]] * rng.randrange(1, 12) + base
     if kind == "exhaust":
         return ([base[-1]] if n > 1 else [("T",)]) * 12 + base
+    if kind == "give_up_mid_chain":
+        # every attempt loses the tail of the chain: the transfer is abandoned with some segments received
+        k = rng.randrange(1, n) if n > 1 else 0
+        return (base[:k] + [("T",)]) * 12
     if kind == "random":
         return [rng.choice(base + [("T",)]) for _ in range(rng.randrange(0, 4 * n + 6))]
     return base
@@ -168,8 +200,8 @@ def gen_script(rng, n, kind):
 def run(ctx):
     ctx.rule = ("(a) the real simulator's chain vs sim_chain for boundary (start,len) incl. every multiple of 39 and block-end clipping; "
                 "(b) real GeckoAsyncStructure.get (virtual-time loop, real GeckoAsyncUdpProtocol) and real GeckoStructure.retry_request + engine loop steps "
-                "under fault scripts (drop, duplicate, swap, duplicated request, timeouts at every position, late finals, retry exhaustion, random) built from the "
-                "real chain: (status, #STATU, final block) vs Model/Transfer.v; non-trivial = script containing at least one fault")
+                "under fault scripts (drop, duplicate, swap, duplicated request, timeouts at every position, late finals, retry exhaustion, giving up mid-chain, random) built from the "
+                "real chain, single transfers and sequences of transfers on one structure object: (status, #STATU, final block) vs Model/Transfer.v; non-trivial = script containing at least one fault")
     ctx.prove(timeout=1800)
     rng = ctx.rng
     exprs, meta = [], []
@@ -243,6 +275,43 @@ def run(ctx):
                         if bad:
                             ctx.fail("transfer:%s" % cls, bad, {"class": cls, "start": st, "length": ln, "spa": list(spa), "block0": list(b0),
                                                                 "script": script, "status": status, "sends": sends, "final": list(blk)})
+    # successive transfers on ONE structure object: what an earlier transfer leaves behind (a failed one in particular) must not
+    # leak into the next; each transfer is compared with the model started from the block the previous one left
+    seq_kinds = [("give_up_mid_chain", "clean"), ("give_up_mid_chain", "drop"), ("exhaust", "clean"), ("timeouts", "clean"), ("clean", "clean"),
+                 ("late_final", "dup"), ("random", "clean"), ("give_up_mid_chain", "give_up_mid_chain", "clean")]
+    for (st, ln) in [(0, 120), (3, 117), (10, 100)] + ([(0, 78), (40, 80)] if ctx.thorough else []):
+        for kinds_seq in seq_kinds:
+            spas, items = [], []
+            for j, kind in enumerate(kinds_seq):
+                spa = bytes(rng.randrange(256) for _ in range(120))
+                sim.structure.set_status_block(spa)
+                st_j, ln_j = (st, ln) if j % 2 == 0 else (0, 120)
+                chain = real_chain(sim, st_j, ln_j)
+                spas.append(spa)
+                items.append((st_j, ln_j, chain, gen_script(rng, len(chain), kind)))
+            b_start = bytes(rng.randrange(256) for _ in range(120))
+            for cls, fn in (("async", run_async_seq), ("sync", run_sync_seq)):
+                res_seq = fn(b_start, items)
+                b_prev = b_start
+                for j, (status, sends, blk) in enumerate(res_seq):
+                    st_j, ln_j, chain, script = items[j]
+                    exprs.append("chk_client %s %s %s %d %d %d [%s] %d %d %s" % (
+                        vf.cbool(cls == "async"), vf.zb(spas[j]), vf.zb(b_prev), st_j, ln_j, RETRIES, "; ".join(cev(e) for e in script), status, sends, vf.zb(blk)))
+                    meta.append({"class": cls, "request": (st_j, ln_j), "script": kinds_seq[j], "position_in_sequence": j, "after": list(kinds_seq[:j]), "impl": (status, sends)})
+                    ctx.case((cls, "seq", st, ln, kinds_seq, j, str(script)), nontrivial=j > 0)
+                    ctx.count("sequence_transfer:%d" % j)
+                    want = b_prev[:st_j] + b"".join(c[2] for c in chain) + b_prev[st_j + sum(len(c[2]) for c in chain):]
+                    bad = None
+                    if status == 1 and blk != want:
+                        bad = "transfer reported success but the installed block is not the spa's chain"
+                    elif status != 1 and blk != b_prev:
+                        bad = "transfer did not succeed but the client's block changed"
+                    elif kinds_seq[j] == "clean" and (status != 1 or sends != 1):
+                        bad = "fault-free transfer did not succeed with one request"
+                    if bad:
+                        ctx.fail("transfer:%s:after_earlier_transfer" % cls, "%s (transfer %d on the same structure object, after %s)" % (bad, j + 1, " + ".join(kinds_seq[:j]) or "nothing"),
+                                 {"class": cls, "transfers": [(a, b, sc) for (a, b, _, sc) in items[:j + 1]], "status": status, "sends": sends, "final": list(blk), "expected_if_success": list(want)})
+                    b_prev = blk
     # one full-size transfer per class on the 1024-byte block (27 segments), with a duplicated request
     sim.structure.set_status_block(spa_full)
     chain = real_chain(sim, 0, 1024)
